@@ -1,98 +1,13 @@
-"""Per-property configuration of the checks (see DESIGN.md section 6)."""
+"""Per-property configuration of the checks: one file per property in lib/props.d/<id>.py
+defining PROP = {...} (counts per tier, rule, assumptions, partial, optional model_input / extra /
+trusted_base / timeout / shard)."""
+import os
 
-PROPS = {
-    "C09": {
-        "counts": {"quick": 160, "thorough": 6000},
-        "rule": "one case = a WAL program (append/batch/rotate/reopen/read-from) run through pkg/wal and the "
-                "extracted WalCodec model; file bytes (length+CRC), replayed entries, statuses and sequence "
-                "numbers compared; non-trivial = at least 2 entries appended and (a fragmented entry or a "
-                "batch or more than one file); distinct by case text",
-        "trusted_base": [],
-        "assumptions": ["bufio/os deliver the bytes written; file names sort in creation order (UnixNano timestamps)"],
-        "partial": "",
-    },
-    "C01": {
-        "counts": {"quick": 240, "thorough": 12000},
-        "rule": "one case = a sequential program over the embedded API (put/delete/get/ApplyBatch/transaction "
-                "commit+rollback/flush/close+reopen/layer dump) with a small memtable so that data moves through "
-                "active table, immutable tables and SSTables; every Get, the reported last sequence and the "
-                "logical content of every layer are compared with the extracted Engine model; oracle = map replay "
-                "of the acknowledged writes; non-trivial = data in >= 2 kinds of layers and at least one "
-                "overwrite/delete of a key after a flush or reopen; distinct by case text",
-        "assumptions": ["background flush goroutine parked at a verifhook gate (layer placement decided by the "
-                        "program's explicit flushes); age-based memtable switching disabled (MaxMemTableAge=0)"],
-        "partial": "single client; concurrency is C06",
-    },
-    "C08": {
-        "counts": {"quick": 200, "thorough": 10000},
-        "rule": "same programs as C01 weighted to flush (WAL rotation) and reopen; the last sequence reported by "
-                "statistics after every write, after every reopen, and the next WAL sequence are compared with "
-                "the model; oracle = strictly greater after every acknowledged write, never smaller after reopen; "
-                "non-trivial as for C01",
-        "assumptions": ["as C01"],
-        "partial": "",
-    },
-    "C18": {
-        "counts": {"quick": 400, "thorough": 30000},
-        "rule": "sequential cases: insert/delete sequences with arbitrary (non-monotone, repeated, extreme) sequence "
-                "numbers on pkg/memtable.MemTable, with Get, full iteration, Seek, SetImmutable, compared with the "
-                "extracted Memtable model and with an independent sort-based oracle; every 10th case is concurrent: "
-                "one writer, three readers doing iteration/Get, each observation checked (sorted, nothing missing that "
-                "was inserted before it began, nothing invented); non-trivial = a key with several versions and >= 3 inserts",
-        "assumptions": ["Go atomics are sequentially consistent (skip list next pointers are atomic.Pointer)"],
-        "partial": "concurrent clause: proved on the store-by-store model (SkipConc.v, see Props/C18.v for what is "
-                   "complete); real interleavings are sampled",
-    },
-    "C10": {
-        "counts": {"quick": 32, "thorough": 1200},
-        "rule": "per case a log is written through pkg/wal; small logs: EVERY truncation offset and every byte position x "
-                "{xor 1, xor 0x80, :=0, :=0xff, +1} of the newest file is replayed by wal.ReplayWALFile and by the extracted "
-                "WalCodec model (entry count, status, digest compared); logs with a fragmented entry: sampled cuts and flips "
-                "incl. record headers; directory replays with the newest file cut (older files must stay); every 4th case "
-                "drives the engine: damage the newest log of a closed database, reopen (must succeed, state = some prefix "
-                "state, no backup of logs), write more, reopen again (post-recovery writes recovered). Oracle: entries "
-                "completely before the first damaged byte recovered in order, nothing returned that was not appended. "
-                "non-trivial = >= 2 entries and > 10 damaged replays",
-        "assumptions": ["CRC-32 detects the damage: the theorem's escape clause (checksum accepted altered bytes) is the only "
-                        "way a single altered byte can change an entry"],
-        "partial": "process/file-system level effects beyond cut and byte alteration of the newest file are not modelled",
-    },
-    "C02": {
-        "counts": {"quick": 48, "thorough": 2000},
-        "model_input": "both",
-        "rule": "per case a write program (put/delete/batch/commit/flush/reopen; sync mode none/batch/immediate; small "
-                "memtables) and 8 crash directives: a CHILD process runs the program with a verifhook site armed and dies "
-                "(os.Exit(137), no cleanup) at the n-th hit of the site (WAL append/sync, between log append and memtable "
-                "insert, inside a batch, each step of log rotation, SSTable write/rename/publish, close) or closes cleanly; "
-                "the parent records which writes were acknowledged/issued and how many bytes of every log file survived, "
-                "reopens, reads every key, writes three more operations, reopens again. Model: the extracted Engine/WalCodec "
-                "model cut at exactly the surviving lengths. Oracle: recovered state = state after m writes, acknowledged "
-                "<= m <= issued with synchronous logging (0 <= m otherwise), batches whole; after the extra writes and a clean "
-                "reopen = prefix(m) + those writes. non-trivial = at least one armed site was hit and >= 3 writes",
-        "assumptions": ["process stop, not power loss: bytes handed to the OS by write() survive; fsync ordering, lost renames "
-                        "and torn pages are outside the model (DESIGN.md section 8)"],
-        "partial": "crash points are the hook sites (between system calls), not arbitrary instructions; the theorems quantify "
-                   "over every cut of the newest log file",
-    },
-    "C06": {
-        "counts": {"quick": 40, "thorough": 4000},
-        "model_input": "impl",
-        "rule": "one case = 4-16 client goroutines running random put/get/delete programs on 1-4 keys against one engine "
-                "with a 64-512 byte memtable (log rotation every few writes, background flush running), 0-2 goroutines "
-                "calling FlushImMemTables, 0-1 calling TriggerCompaction, verifhook yield perturbation at every hook site, "
-                "optionally a directed delay of the rotating goroutine; every call bracketed by tickets of one atomic "
-                "counter; final reads of every key, in a third of the cases again after close+reopen. The recorded history "
-                "is judged by the extracted lin_check (proved sound) and by an independent Go search (oracle). non-trivial = "
-                ">= 2 threads, >= 3 overlapping pairs of calls on one key, >= 1 log rotation, >= 1 read of another thread's write",
-        "assumptions": ["Go's sync.Mutex/RWMutex give mutual exclusion and atomics are sequentially consistent (the LTS takes "
-                        "the critical sections as atomic steps)",
-                        "tickets of one atomic counter taken before the call and after the return: recorded precedence implies "
-                        "real-time precedence"],
-        "partial": "locality (per-key linearizability => linearizability of the whole history) is the Herlihy-Wing theorem, not "
-                   "re-proved: lin_check establishes linearizable_per_key. The theorem quantifies over all interleavings of the "
-                   "model's critical sections; real schedules are sampled. Concurrent iteration of the live active table by "
-                   "the flusher is one atomic step in the model. C06_error_no_effect holds only without a status flip between "
-                   "Append's two checks (C06_error_no_effect_refuted, corpus/C06/flip-*.case)",
-        "shrink": False,
-    },
-}
+PROPS = {}
+_d = os.path.join(os.path.dirname(os.path.abspath(__file__)), "props.d")
+for _fn in sorted(os.listdir(_d)):
+    if _fn.endswith(".py"):
+        _g = {}
+        with open(os.path.join(_d, _fn)) as _f:
+            exec(compile(_f.read(), _fn, "exec"), _g)
+        PROPS[_fn[:-3]] = _g["PROP"]
